@@ -62,6 +62,7 @@ type Profile struct {
 	POnlyIfCached float64
 	PRange        float64
 	PConnHdr      float64 // hop-by-hop material
+	PCCSpell      float64 // alternative spellings of Cache-Control
 	Statuses      []int
 	Methods       []string
 	URLs          int // number of distinct resources
@@ -72,7 +73,7 @@ var baseProfile = Profile{
 	Name: "mix", NReq: [2]int{3, 8}, PUnsafe: 0.12, PReqCC: 0.35, PVary: 0.3, PDate: 0.35, PSkew: 0.3,
 	PAge: 0.25, PBigNum: 0.05, PValidators: 0.6, PSWR: 0.2, PSIE: 0.15, PNoCache: 0.1, PMustReval: 0.15,
 	PHeuristic: 0.2, PErrReply: 0.1, PBodyFail: 0.0, PSpelling: 0.3, PLocation: 0.3, POnlyIfCached: 0.1,
-	PRange: 0.03, PConnHdr: 0.1,
+	PRange: 0.03, PConnHdr: 0.1, PCCSpell: 0.15,
 	Statuses:    []int{200, 200, 200, 200, 200, 200, 203, 204, 301, 302, 307, 308, 404, 410, 500, 503, 206},
 	Methods:     []string{"POST", "PUT", "DELETE", "PATCH", "HEAD", "OPTIONS", "PROPFIND", "MKCOL", "FOO"},
 	URLs:        2,
@@ -139,6 +140,72 @@ func (d directive) String() string {
 		return d.name + "=" + d.arg
 	}
 	return d.name
+}
+
+// spellCC renders an abstract directive list in one of its many equivalent spellings
+// (RFC 9111 §5.2, RFC 9110 §5.3/§5.6): any order, letter case, optional whitespace, empty list
+// elements, token or quoted-string arguments, extension directives, several field lines.
+func (g *G) spellCC(ds []directive) []string {
+	ds = append([]directive(nil), ds...)
+	g.r.Shuffle(len(ds), func(i, j int) { ds[i], ds[j] = ds[j], ds[i] })
+	var elems []string
+	for _, d := range ds {
+		if g.chance(0.25) {
+			elems = append(elems, g.pick("foo", "bar=1", `ext="a,b"`, "x-y=z", `community="UCI"`))
+		}
+		name := g.spellName(d.name)
+		if !d.has {
+			elems = append(elems, name)
+			continue
+		}
+		arg := d.arg
+		if !strings.HasPrefix(arg, `"`) {
+			switch g.intn(4) {
+			case 0:
+				arg = `"` + arg + `"`
+			case 1:
+				if len(arg) > 0 {
+					arg = `"` + arg[:len(arg)-1] + `\` + arg[len(arg)-1:] + `"`
+				}
+			}
+		}
+		elems = append(elems, name+"="+arg)
+	}
+	nlines := 1 + g.intn(3)
+	lines := make([]string, nlines)
+	for _, e := range elems {
+		i := g.intn(nlines)
+		sep := g.pick(", ", ",", " , ", ",,", ", ,", ",\t")
+		if lines[i] == "" {
+			if g.chance(0.15) {
+				lines[i] = g.pick(",", " ,", ", ")
+			}
+			lines[i] += e
+		} else {
+			lines[i] += sep + e
+		}
+	}
+	var out []string
+	for _, l := range lines {
+		if l != "" {
+			if g.chance(0.1) {
+				l += g.pick(",", " ,")
+			}
+			// a field value never has leading or trailing whitespace once parsed off the wire
+			out = append(out, strings.Trim(l, " \t"))
+		}
+	}
+	return out
+}
+
+// ccHeader renders a directive list canonically or, with probability PCCSpell, respelled.
+func (g *G) ccHeader(p *Profile, ds []directive) Hdr {
+	if g.chance(p.PCCSpell) {
+		if lines := g.spellCC(ds); len(lines) > 0 {
+			return Hdr{"Cache-Control", lines}
+		}
+	}
+	return Hdr{"Cache-Control", []string{joinDirectives(ds)}}
 }
 
 func joinDirectives(ds []directive) string {
@@ -300,7 +367,7 @@ func (g *G) genRep(p *Profile, idx int, approx time.Time, conditional bool) Rep 
 		ds = keep
 	}
 	if len(ds) > 0 && !(conditional && status == 304 && g.chance(0.5)) {
-		add("Cache-Control", joinDirectives(ds))
+		hs = append(hs, g.ccHeader(p, ds))
 	}
 	date := approx
 	hasDate := g.chance(p.PDate)
@@ -395,7 +462,7 @@ func (g *G) genCase(p *Profile, id string) *Case {
 		}
 		rq.Hdrs = g.selectingHeaders()
 		if g.chance(p.PReqCC) {
-			rq.Hdrs = append(rq.Hdrs, Hdr{"Cache-Control", []string{joinDirectives(g.reqDirectives(p))}})
+			rq.Hdrs = append(rq.Hdrs, g.ccHeader(p, g.reqDirectives(p)))
 		}
 		if g.chance(p.PRange) {
 			rq.Hdrs = append(rq.Hdrs, Hdr{"Range", []string{"bytes=0-1"}})
@@ -412,4 +479,39 @@ func (g *G) genCase(p *Profile, id string) *Case {
 		c.Script = append(c.Script, ScriptEntry{Delay: d, Plain: g.genRep(p, i, approx, false), Cond: g.genRep(p, i, approx, true)})
 	}
 	return c
+}
+
+func derive(name string, f func(p *Profile)) Profile {
+	p := baseProfile
+	p.Name = name
+	f(&p)
+	return p
+}
+
+func init() {
+	profiles["mix"] = baseProfile
+	profiles["fresh"] = derive("fresh", func(p *Profile) {
+		p.NReq = [2]int{3, 6}
+		p.PUnsafe, p.PReqCC, p.PVary, p.PDate, p.PSkew = 0.02, 0.45, 0.1, 0.5, 0.5
+		p.PAge, p.PBigNum, p.PHeuristic, p.PErrReply, p.URLs = 0.4, 0.15, 0.35, 0.02, 1
+		p.PSpelling, p.PLocation, p.PConnHdr, p.PRange = 0.1, 0.0, 0.0, 0.0
+	})
+	profiles["validate"] = derive("validate", func(p *Profile) {
+		p.NReq = [2]int{3, 7}
+		p.PUnsafe, p.PReqCC, p.PVary, p.PNoCache, p.PMustReval = 0.02, 0.5, 0.1, 0.3, 0.4
+		p.PValidators, p.PSWR, p.PSIE, p.PErrReply, p.POnlyIfCached, p.URLs = 0.75, 0.3, 0.3, 0.2, 0.15, 1
+		p.PSpelling, p.PLocation, p.PConnHdr, p.PRange = 0.1, 0.0, 0.0, 0.0
+	})
+	profiles["spell"] = derive("spell", func(p *Profile) {
+		p.NReq = [2]int{3, 6}
+		p.PCCSpell, p.PReqCC, p.PBigNum, p.URLs, p.PUnsafe = 0.9, 0.6, 0.2, 1, 0.02
+		p.PNoCache, p.PMustReval, p.PSWR, p.PSIE = 0.25, 0.3, 0.3, 0.25
+		p.PLocation, p.PConnHdr, p.PRange = 0.0, 0.0, 0.0
+	})
+	profiles["oic"] = derive("oic", func(p *Profile) {
+		p.NReq = [2]int{3, 6}
+		p.PUnsafe, p.PReqCC, p.POnlyIfCached, p.PNoCache, p.PMustReval = 0.02, 0.8, 0.6, 0.25, 0.35
+		p.PSWR, p.PSIE, p.URLs, p.PVary = 0.3, 0.2, 1, 0.2
+		p.PLocation, p.PConnHdr, p.PRange = 0.0, 0.0, 0.0
+	})
 }
